@@ -26,6 +26,7 @@ import (
 	"encoding/binary"
 	"errors"
 	"io"
+	"math"
 	"os"
 )
 
@@ -43,6 +44,10 @@ type ComDoc struct {
 	SSAT  []SecID
 	Files []DirEnt
 
+	// number of sectors, including a trailing partial one, that were present
+	// in the file when it was opened. No table or chain of sectors read from
+	// the file can be longer than this.
+	sectorCount int
 	sectorBuf   []byte
 	changed     bool
 	rootStorage int     // index into files
@@ -108,6 +113,21 @@ func openFile(reader io.ReaderAt, writer *os.File, closer io.Closer) (*ComDoc, e
 	} else {
 		r.FirstSector = int64(r.SectorSize)
 	}
+	// everything else in the header is validated against what is actually
+	// in the file, starting with the sector size itself
+	size, err := fileSize(reader)
+	if err != nil {
+		return nil, err
+	}
+	if size < r.FirstSector+int64(r.SectorSize) {
+		return nil, errors.New("file is too short to hold a single sector")
+	}
+	sectorCount := (size - r.FirstSector + int64(r.SectorSize) - 1) / int64(r.SectorSize)
+	if sectorCount > math.MaxInt32 {
+		// sector IDs are signed 32-bit integers
+		sectorCount = math.MaxInt32
+	}
+	r.sectorCount = int(sectorCount)
 	r.sectorBuf = make([]byte, r.SectorSize)
 
 	if err := r.readMSAT(); err != nil {
@@ -123,4 +143,47 @@ func openFile(reader io.ReaderAt, writer *os.File, closer io.Closer) (*ComDoc, e
 		return nil, err
 	}
 	return r, nil
+}
+
+// Determine the size of the underlying file so that values read from it can be
+// checked for plausibility.
+func fileSize(reader io.ReaderAt) (int64, error) {
+	switch f := reader.(type) {
+	case interface{ Stat() (os.FileInfo, error) }:
+		info, err := f.Stat()
+		if err != nil {
+			return 0, err
+		}
+		return info.Size(), nil
+	case interface{ Size() int64 }:
+		return f.Size(), nil
+	}
+	// Anything else gets probed for the last readable byte. First double the
+	// offset until it's past the end, then bisect.
+	var d [1]byte
+	readable := func(offset int64) bool {
+		n, _ := reader.ReadAt(d[:], offset)
+		return n == 1
+	}
+	if !readable(0) {
+		return 0, nil
+	}
+	low, high := int64(0), int64(512)
+	for readable(high) {
+		low = high
+		if high > math.MaxInt64/2 {
+			return 0, errors.New("unable to determine file size")
+		}
+		high *= 2
+	}
+	// the byte at low is readable, the one at high is not
+	for high-low > 1 {
+		mid := low + (high-low)/2
+		if readable(mid) {
+			low = mid
+		} else {
+			high = mid
+		}
+	}
+	return high, nil
 }
